@@ -1885,6 +1885,94 @@ def t13(ast):
     return [pop, push, chk]
 
 
+# ------------------------------------------------------------------------------------ T14
+# three more small functions, recognised statement by statement: `read_cmd_char` (the only caller of
+# io->read; case folding outside argument collection), `hold_exit`, `start_print_cmd_list`.
+
+def t14(ast):
+    out = []
+    # read_cmd_char
+    _, body = find_fn(ast, "read_cmd_char")
+    sts = [x for x in body.get("inner", []) if not is_noise(x)]
+    ok = len(sts) == 3 and sts[0].get("kind") == "IfStmt" and sts[1].get("kind") == "IfStmt" and sts[2].get("kind") == "ReturnStmt"
+    if ok:
+        c = strip(sts[0]["inner"][0])
+        call = strip(c["inner"][0]) if c.get("kind") == "BinaryOperator" and c.get("opcode") == "==" else {}
+        z = strip(c["inner"][1]) if c.get("inner") and len(c["inner"]) > 1 else {}
+        a = strip(call["inner"][1]) if call.get("kind") == "CallExpr" and len(call.get("inner", [])) == 2 else {}
+        ok = (call.get("kind") == "CallExpr" and _calls_member(call, "read") and a.get("kind") == "UnaryOperator" and a.get("opcode") == "&"
+              and _member_path(a["inner"][0]) == "current_char" and z.get("kind") == "IntegerLiteral" and z.get("value") == "0"
+              and len(sts[0]["inner"]) == 2)
+        r0 = [x for x in _block(sts[0]["inner"][1]) if not is_noise(x)]
+        ok = ok and len(r0) == 1 and r0[0].get("kind") == "ReturnStmt" and strip(r0[0]["inner"][0]).get("value") == "0"
+        c2 = strip(sts[1]["inner"][0])
+        ok = ok and c2.get("kind") == "BinaryOperator" and c2.get("opcode") == "!=" and _member_path(c2["inner"][0]) == "state" \
+            and strip(c2["inner"][1]).get("referencedDecl", {}).get("name") == "CAT_STATE_PARSE_COMMAND_ARGS" and len(sts[1]["inner"]) == 2
+        t = [x for x in _block(sts[1]["inner"][1]) if not is_noise(x)]
+        if ok and len(t) == 1:
+            e = strip(t[0])
+            r = strip(e["inner"][1]) if e.get("kind") == "BinaryOperator" and e.get("opcode") == "=" else {}
+            ok = (_member_path(e["inner"][0]) == "current_char" and r.get("kind") == "CallExpr"
+                  and strip(r["inner"][0]).get("referencedDecl", {}).get("name") == "to_upper" and _member_path(r["inner"][1]) == "current_char")
+        else:
+            ok = False
+        ok = ok and strip(sts[2]["inner"][0]).get("value") == "1"
+    if not ok:
+        raise Unrecognised("T14: read_cmd_char has an unrecognised shape")
+    out.append("/-- `read_cmd_char` of src/cat.c; the Bool is \"returned 1\" -/\n"
+               "def read_cmd_char (s : St) (i : SvcIn) : St × Bool :=\n"
+               "  match i.rd with\n"
+               "  | none => (s.emit (.rd none), false)            -- io->read returned 0 (ghost event)\n"
+               "  | some b =>\n"
+               "    let s : St := s.emit (.rd (some b));           -- ghost event\n"
+               "    let s : St := { s with currentChar := b };     -- io->read stored the byte through its argument\n"
+               "    let s : St := (if s.state != .parseCommandArgs then { s with currentChar := toUpper s.currentChar } else s);\n"
+               "    (s, true)")
+    # hold_exit
+    _, body = find_fn(ast, "hold_exit")
+    sts = [x for x in body.get("inner", []) if not is_noise(x) and x.get("kind") != "DeclStmt"]
+    ok = len(sts) == 2 and sts[0].get("kind") == "IfStmt" and len(sts[0]["inner"]) == 3 and sts[1].get("kind") == "ReturnStmt" \
+        and strip(sts[1]["inner"][0]).get("referencedDecl", {}).get("name") == "s"
+    if ok:
+        c = strip(sts[0]["inner"][0])
+        ok = c.get("kind") == "BinaryOperator" and c.get("opcode") == "==" and _member_path(c["inner"][0]) == "hold_state_flag"
+        try:
+            ok = ok and _rhs(c["inner"][1], "bool", [], {}) == "false"
+        except Unrecognised:
+            ok = False
+
+        def set_s(st, name):
+            e = strip(st)
+            return (e.get("kind") == "BinaryOperator" and e.get("opcode") == "=" and strip(e["inner"][0]).get("referencedDecl", {}).get("name") == "s"
+                    and strip(e["inner"][1]).get("referencedDecl", {}).get("name") == name)
+        th = [x for x in _block(sts[0]["inner"][1]) if not is_noise(x)]
+        el = [x for x in _block(sts[0]["inner"][2]) if not is_noise(x)]
+        ok = ok and len(th) == 1 and set_s(th[0], "CAT_STATUS_ERROR_NOT_HOLD") and len(el) == 2 and set_s(el[1], "CAT_STATUS_OK")
+        if ok:
+            e = strip(el[0])
+            r = strip(e["inner"][1]) if e.get("kind") == "BinaryOperator" and e.get("opcode") == "=" else {}
+            ok = _member_path(e["inner"][0]) == "hold_exit_status" and r.get("kind") == "ConditionalOperator"
+            if ok:
+                cc, a, b = strip(r["inner"][0]), strip(r["inner"][1]), strip(r["inner"][2])
+                ok = (cc.get("kind") == "BinaryOperator" and cc.get("opcode") == "==" and strip(cc["inner"][0]).get("referencedDecl", {}).get("name") == "status"
+                      and strip(cc["inner"][1]).get("referencedDecl", {}).get("name") == "CAT_STATUS_OK" and const_value(a, {}) == 1 and const_value(b, {}) == -1)
+    if not ok:
+        raise Unrecognised("T14: hold_exit has an unrecognised shape")
+    out.append("/-- `hold_exit` of src/cat.c -/\n"
+               "def hold_exit (s : St) (status : Int) : St × Int :=\n"
+               "  if s.holdFlag == false then (s, Gen.CAT_STATUS_ERROR_NOT_HOLD)\n"
+               "  else ({ s with holdExitStatus := if status = Gen.CAT_STATUS_OK then 1 else -1 }, Gen.CAT_STATUS_OK)")
+    # start_print_cmd_list via the CPS translator (void function)
+    VOID_FN_MODE[0] = True
+    try:
+        _, body = find_fn(ast, "start_print_cmd_list")
+        sts = [x for x in body.get("inner", []) if not is_noise(x)]
+        out.append("/-- `start_print_cmd_list` of src/cat.c -/\ndef start_print_cmd_list (D : Desc) (s : St) : St :=\n  %s" % _cps(sts, "s", "    "))
+    finally:
+        VOID_FN_MODE[0] = False
+    return out
+
+
 def t9(ast):
     defs = []
     for name in STEPS:
@@ -1900,7 +1988,8 @@ def t9(ast):
     defs += t11(ast)
     defs += t12(ast)
     defs += t13(ast)
-    hdr = ("/-\n  GENERATED by tools/translate.py from small step functions of src/cat.c (T9 - T13). Do not edit.\n"
+    defs += t14(ast)
+    hdr = ("/-\n  GENERATED by tools/translate.py from small step functions of src/cat.c (T9 - T14). Do not edit.\n"
            "  `Proofs/Steps.lean` proves the model's functions equal to these.\n-/\n"
            "import CatVerif.Model.Fsm\nnamespace Cat.Gen\nopen Cat St\nset_option linter.unusedVariables false\n\n")
     return hdr + "\n\n".join(defs) + "\n\nend Cat.Gen\n"
